@@ -7,6 +7,7 @@
 import MiVerif.Lemmas.PageMore
 import MiVerif.Lemmas.SegReach
 import MiVerif.Lemmas.ExtendLoop
+import MiVerif.Lemmas.PageStart
 
 namespace C01
 open PageM
@@ -171,6 +172,25 @@ theorem segment_tiling_reachable (entries info : Nat) (hi : 0 < info) (hie : inf
     | free s =>
       obtain ⟨sp, c, u, hr, hm⟩ := hen
       exact page_free_keeps_tiling g sp s c u hr hm
+
+/-- **the block area of a page lies inside the page's own slices** (over `_mi_segment_page_start_from_slice` as regenerated from
+    src/segment.c; `mi_page_init` takes `reserved = page_size / block_size` from it): for the page that starts at slice `idx` and
+    spans `cnt` slices, block area start + reported page size is exactly the end of those slices, the start is not before their
+    beginning, hence every one of the `page_size / bs` blocks lies inside `[seg + idx·64 KiB, seg + (idx + cnt)·64 KiB)` and no block
+    reaches into the neighbouring page -/
+theorem generated_page_area_inside_its_slices (cnt seg idx bs psz : Nat) (hseg : seg + 33554432 < 2^64) (hidx : idx < 512)
+    (hp : psz ≠ 0) (hcnt : 1 ≤ cnt) (hfit : idx + cnt ≤ 512) (hbs : 0 < bs) (i : Nat)
+    (hi : i < (Gen._mi_segment_page_start_from_slice cnt seg (seg + 288 + idx * 96) bs psz).2 / bs) :
+    seg + idx * 65536 ≤ (Gen._mi_segment_page_start_from_slice cnt seg (seg + 288 + idx * 96) bs psz).1 + i * bs ∧
+    (Gen._mi_segment_page_start_from_slice cnt seg (seg + 288 + idx * 96) bs psz).1 + (i + 1) * bs ≤ seg + (idx + cnt) * 65536 := by
+  obtain ⟨hend, hstart⟩ := PageStartL.page_area_end cnt seg idx bs psz hseg hidx hp hcnt hfit
+  generalize (Gen._mi_segment_page_start_from_slice cnt seg (seg + 288 + idx * 96) bs psz).1 = st at hend hstart ⊢
+  generalize (Gen._mi_segment_page_start_from_slice cnt seg (seg + 288 + idx * 96) bs psz).2 = ps at hend hi ⊢
+  have h1 : (i + 1) * bs ≤ ps / bs * bs := Nat.mul_le_mul_right bs hi
+  have h2 : ps / bs * bs ≤ ps := Nat.div_mul_le_self ps bs
+  constructor
+  · omega
+  · omega
 
 /-- **the real free-list extension, regenerated from src/page.c** (`mi_page_free_list_extend`, a `while` loop translated by
     extract/translate.py to `whileN`; stores are the effect log): for a page whose block area starts at `ps page`, with `cap` blocks
